@@ -501,8 +501,9 @@ def check(run):
         # the divergence is the divergence of the final gradient data
         exp = div_oracle(c)
         if len(exp) != len(b1) or any(not close(x, float(y)) for x, y in zip(b1, exp)):
-            run.violation("div:value", "set_div does not give the cell-averaged finite-difference divergence of the gradients: got %s expected %s [case: %s]"
-                          % (b1[:8], [float(y) for y in exp[:8]], l1[:400]), {"kind": "unit", "case": l1, "impl": io1})
+            badi = [i for i, (x, y) in enumerate(zip(b1, exp)) if not close(x, float(y))][:6]
+            run.violation("div:value", "set_div does not give the cell-averaged finite-difference divergence of the gradients at flat index(es) %s: got %s expected %s [case: %s]"
+                          % (badi, [b1[i] for i in badi], [float(exp[i]) for i in badi], l1[:400]), {"kind": "unit", "case": l1, "impl": io1})
         # solvability: it sums to zero (C16_divergence_sums_to_zero)
         sb = sum(fr(x) for x in b1)
         scale_b = max([1.0] + [abs(x) for x in b1])
